@@ -51,7 +51,10 @@ def run(ctx: Ctx):
 def scaling(ctx: Ctx):
     for cname, se in (("_Slice", "self.population_std_err"), ("_Strand", "self.population_proportion_stderrs")):
         ci = ctx.repo.cls("cubepart.py", cname)
-        keep = lambda m: m.name != "population_fraction"  # the partition's own alias of the cube's fraction is followed
+        # the partition's own alias of the cube's fraction is followed, and so is any PRIVATE helper property that the
+        # specification does not name (`_total_filtered_population`): the formula is compared on the named operands
+        named = ("_population", "_cube", "_measures", "_dimensions", "_rows_dimension", "_transforms_dict")
+        keep = lambda m: not (m.name == "population_fraction" or (m.name.startswith("_") and not m.name.startswith("__") and m.name not in named and m.kind in ("lazyproperty", "property")))
         e = expand(ctx.repo, ci, "population_counts", stop=keep)
         v, cnf, snf, _ = equal(e, "self.population_proportions * self._population * self._cube.population_fraction")
         ctx.ob("scaling", f"cubepart.py::{cname}.population_counts", cnf, snf, v, "population estimate = population proportion x population x filtered fraction")
